@@ -63,6 +63,14 @@ def tangent_record(rid, item, field, symmetric, rng, settle=False, ncols=10, ful
     n = x0.size
     if settle:
         vec(item, field, True)
+    else:
+        # the matrix is requested FIRST at this state, right after the item has been evaluated at a different one: it must refer to
+        # the current values of the field it is handed, not to anything cached by the previous call
+        other = x0.copy()
+        other[rng.choice(n, size=min(6, n), replace=False)] += 2 * H
+        setx(field, other)
+        vec(item, field)
+        setx(field, x0)
     K = mat(item, field, n)
     cols = []
     js = list(range(n)) if n <= ncols else sorted(rng.choice(n, size=ncols, replace=False).tolist())
@@ -475,6 +483,17 @@ def c14(out, a):
             item = fem.SolidBodyForce(f, values=vals, scale=scale)
             out.write({"id": rid, "kind": "resultant", "nt": True, "fd": 3, "f": q(item.assemble.vector(f).toarray()[:, 0], S),
                        "expect": q(vals * scale * 1.0, S)})
+        # ... constructed with INTEGER zeros (the usual start of a ramp), then updated to non-integer values
+        rid = "resultant-bodyforce-updated-%d" % rep
+        if out.want(rid):
+            m = perturb(fem.Cube(n=3), rng)
+            f = state(fem.FieldContainer([fem.Field(fem.RegionHexahedron(m), dim=3)]), rng)
+            vals, scale = rng.randint(-7, 8, size=3) / 4.0 + 0.125, float(rng.randint(1, 4))
+            item = fem.SolidBodyForce(f, values=[0, 0, 0], scale=scale)
+            item.assemble.vector(f)
+            item.update(vals)
+            out.write({"id": rid, "kind": "resultant", "nt": True, "fd": 3, "f": q(item.assemble.vector(f).toarray()[:, 0], S),
+                       "expect": q(vals * scale * 1.0, S)})
         rid = "resultant-gravity-%d" % rep
         if out.want(rid):
             m = perturb(fem.Rectangle(b=(2, 1), n=3), rng)
@@ -504,12 +523,15 @@ def c14(out, a):
                 f = fem.FieldContainer([(fem.FieldAxisymmetric if axi else fem.FieldPlaneStrain)(reg, dim=2)])
                 pts = sorted(rng.choice(9, size=3, replace=False).tolist())
                 seq = [rng.randint(-4, 5, size=(3, 2)).astype(float) for _ in range(hist + 1)]
+                if hist:                       # integer start values, non-integer updates
+                    seq[0] = seq[0].astype(int)
+                    seq[-1] = seq[-1] + 0.5
                 item = fem.PointLoad(f, pts, values=seq[0], axisymmetric=axi)
                 item.assemble.vector(f)
                 for v in seq[1:]:
                     item.update(v)
                 out.write({"id": rid, "kind": "pointload2", "nt": True, "fd": 2, "f": q(item.assemble.vector(f).toarray()[:, 0], S),
-                           "pts": [int(p_) + 1 for p_ in pts], "vals": qi(seq[-1]), "axi": bool(axi), "r8": qi(np.rint(mesh.points[pts, 1] * 8))})
+                           "pts": [int(p_) + 1 for p_ in pts], "vals2": qi(2 * seq[-1]), "axi": bool(axi), "r8": qi(np.rint(mesh.points[pts, 1] * 8))})
         # follower pressure: on one face and on the closed surface
         for where in ("face", "closed", "face-kw", "face-update"):
             rid = "pressure-%s-%d" % (where, rep)
